@@ -186,6 +186,22 @@ var (
 	reKeyLine = regexp.MustCompile(`^\s*key: (".*")$`)
 )
 
+// sameButLeadingDots: two different lines that become equal once every '.' that starts a name
+// (after a space or an opening bracket) is dropped: `.bar.v1.Thing` vs `bar.v1.Thing`.
+func sameButLeadingDots(x, y string) bool {
+	strip := func(s string) string {
+		var sb strings.Builder
+		for i := 0; i < len(s); i++ {
+			if s[i] == '.' && (i == 0 || s[i-1] == ' ' || s[i-1] == '(' || s[i-1] == '<' || s[i-1] == ',') {
+				continue
+			}
+			sb.WriteByte(s[i])
+		}
+		return sb.String()
+	}
+	return x != y && strip(x) == strip(y)
+}
+
 // firstDiffClass classifies the first line on which two printed texts differ.
 func firstDiffClass(a, b string) (string, string) {
 	la, lb := strings.Split(a, "\n"), strings.Split(b, "\n")
@@ -202,6 +218,8 @@ func firstDiffClass(a, b string) (string, string) {
 		}
 		desc := fmt.Sprintf("line %d: %q vs %q", i+1, x, y)
 		switch {
+		case sameButLeadingDots(x, y):
+			return "leading dot of a type reference (scope of the name)", desc
 		case reKeyLine.MatchString(x) || strings.Contains(x, "value:") || strings.HasPrefix(strings.TrimSpace(x), "key:"):
 			return "map option entries", desc
 		case reOptLine.MatchString(x) || reFldOpt.MatchString(x):
